@@ -296,3 +296,43 @@ func VerifC19Float11() { verifC19Float(1, 1) }
 func VerifC19Float12() { verifC19Float(1, 2) }
 func VerifC19Float21() { verifC19Float(2, 1) }
 func VerifC19Float22() { verifC19Float(2, 2) }
+
+// verifC19FloatHuge: a Kommazahl literal of the form d1 d2 0...0,0 with z zeros. With 307 digits in
+// front of the comma (z = 305) every value lies inside the double range and has to be accepted
+// with a finite value; with 310 digits (z = 308) every value except 00... is beyond the largest
+// double and has to be rejected with a diagnostic - never accepted as infinity.
+func verifC19FloatHuge(z int, inside bool) {
+	ds := rt.Bytes("d", 2)
+	for _, d := range ds {
+		rt.Assume(rt.And(d >= '0', d <= '9'))
+	}
+	rt.Assume(ds[0] != '0')
+	src := append([]byte("Die Kommazahl k ist "), ds...)
+	for k := 0; k < z; k++ {
+		src = append(src, '0')
+	}
+	src = append(src, []byte(",0.")...)
+	var d vDiag
+	mod, err := Parse(Options{FileName: "x.ddp", Source: src, ErrorHandler: d.handler})
+	if err != nil || mod == nil || mod.Ast == nil {
+		rt.Assert(false, "the frontend returns a module")
+		return
+	}
+	if inside {
+		rt.Assert(d.errors == 0, "a Kommazahl literal inside the range of a double is accepted")
+	} else {
+		rt.Assert(d.errors > 0, "a Kommazahl literal beyond the largest double is rejected with a diagnostic")
+	}
+	for _, st := range mod.Ast.Statements {
+		if dst, ok := st.(*ast.DeclStmt); ok {
+			if vd, ok := dst.Decl.(*ast.VarDecl); ok {
+				if lit, ok := vd.InitVal.(*ast.FloatLit); ok && d.errors == 0 {
+					rt.Assert(lit.Value <= 1.7976931348623157e308, "an accepted Kommazahl literal has a finite value")
+				}
+			}
+		}
+	}
+}
+
+func VerifC19FloatHugeInside() { verifC19FloatHuge(305, true) }
+func VerifC19FloatHugeBeyond() { verifC19FloatHuge(308, false) }
